@@ -349,13 +349,36 @@ func pickKs(r *rand.Rand, n int64, kinds []string, mode string, max int) []int64
 	if len(cand) <= max {
 		return cand
 	}
-	// first and last ones plus a seeded sample of the middle
+	// stratified by the kind of the callback (Querier, Select, SetNext, Labels, Iterator, Seek, Next, At, ...):
+	// of every kind the first and the last occurrence and seeded ones in between, then the first and last
+	// callbacks overall and a seeded sample of the rest
 	keep := map[int64]bool{}
-	for i := 0; i < max/4; i++ {
+	byKind := map[string][]int64{}
+	var order []string
+	for _, k := range cand {
+		kd := kinds[k-1]
+		if _, ok := byKind[kd]; !ok {
+			order = append(order, kd)
+		}
+		byKind[kd] = append(byKind[kd], k)
+	}
+	per := max / (2 * len(order))
+	if per < 3 {
+		per = 3
+	}
+	for _, kd := range order {
+		ks := byKind[kd]
+		keep[ks[0]] = true
+		keep[ks[len(ks)-1]] = true
+		for i := 2; i < per && len(ks) > 2; i++ {
+			keep[ks[r.Intn(len(ks))]] = true
+		}
+	}
+	for i := 0; i < max/8; i++ {
 		keep[cand[i]] = true
 		keep[cand[len(cand)-1-i]] = true
 	}
-	for len(keep) < max {
+	for tries := 0; len(keep) < max && tries < 10*max; tries++ {
 		keep[cand[r.Intn(len(cand))]] = true
 	}
 	var out []int64
